@@ -207,7 +207,7 @@ def eval_cli(case):
 # matchers
 
 ALPHABET = ['a', '5', '*', '.', ',', '!', ':', '(', ')', '[', ']', '=', '@', '#', '"', ' ', '-', '~', 'é', '١', '\\']
-EXTRA_MATCHERS = ['("C:\\Users")', '("\\x")', '("\\u12")', '("\\N{nope}")', '("a\\")', '(="\\n")', '\\', '"\\',
+EXTRA_MATCHERS = ['(surf*=*)', '.bind([name, ver*]=4)', '(*a=)', '(?=1)', '("C:\\Users")', '("\\x")', '("\\u12")', '("\\N{nope}")', '("a\\")', '(="\\n")', '\\', '"\\',
                   '3\u212a', '4\xdf', 'wl_seat ! 4\xfc', 'A: 12\u03b1',
                   'wl_surface.commit(x=0 ! 5)', '(1e999)', '(inf)', '(nan)', '(-0)', '(5.0)', '("")', '(")', '4a@', 'a@4', '@@', 'A:B:', 'nil', '(nil)',
                   '.new(x)', '[[a]]', '[a ! b ! c]', '((a))', 'a.b.c', '9' * 400, '(' + '9' * 400 + ')', '\x1b[31ma\x1b[0m', '\x00', 'a\nb',
@@ -342,6 +342,10 @@ def eval_command(case):
         silent_ok = any(n.startswith(_effective_word(line) or '\0') for n in ('resume', 'quit'))
         if not out and not err and not silent_ok:
             V.append(Violation('command.silent', case, {'line': line}))
+        # typed again (the user repeats the mistake, or the command): again output or an error line
+        out2, err2 = s.cmd(line)
+        if not out2 and not err2 and not silent_ok:
+            V.append(Violation('command.silent_when_repeated', case, {'line': line, 'first_time': [out[:2], err[:2]]}))
         # the session is still usable
         o2, e2 = s.cmd('connection')
         o3, e3 = s.cmd('list ~ 1')
